@@ -79,6 +79,7 @@ func (zzParkInbound) HandleRead(ctx InboundContext, m Message) {
 //	         bit 2: a client Connect runs concurrently    bit 3: the user also calls Listener.Close
 //	         bit 4: an application handler panics during activation and the exception is swallowed
 //	         bit 5: the channel id factory hands out the same id to every channel
+//	         bit 6: the bootstrap runs on a user context that is cancelled just before Shutdown
 func ZZ_C13_Shutdown(scenario, queue int) {
 	fac := &zzFactory{}
 	inactives := 0
@@ -108,6 +109,13 @@ func ZZ_C13_Shutdown(scenario, queue int) {
 		// an id factory that hands out the same id twice: the holder refuses the second channel with a panic during
 		// its activation; that channel is closed by the exception, the first one and the holder stay usable
 		opts = append(opts, WithChannelID(func() int64 { return 7 }))
+	}
+	cancelUser := func() {}
+	if scenario&64 != 0 {
+		// the application gave the bootstrap its own context and cancels it before it calls Shutdown
+		uctx, cancel := context.WithCancel(context.Background())
+		cancelUser = cancel
+		opts = append(opts, WithContext(uctx))
 	}
 	bs := NewBootstrap(opts...)
 	var cbErr error
@@ -146,6 +154,7 @@ func ZZ_C13_Shutdown(scenario, queue int) {
 			}
 		})
 	}
+	cancelUser()
 	bs.Shutdown()
 	vrt.Assert(bs.Context().Err() != nil, "c13-bootstrap-context-cancelled")
 	dead := vrt.Quiesce()
